@@ -1040,6 +1040,12 @@ def tag_compare_rules(m: Bf3Model, chk, pid):
 def _desc_lookup(t: Term, ddict: Term):
     """key term if t is description.get(key) / description[key] on (an element view of) the parsed tag dictionary"""
     t = unsnap(t)
+    if t.op == "phi":
+        # `d[k] if k in d else None` is d.get(k) spelled out
+        arms = [unsnap(x) for x in t.args[1:]]
+        rest = [x for x in arms if not (x is NONE or (is_const(x) and cval(x) is None))]
+        if len(rest) == 1:
+            return _desc_lookup(rest[0], ddict)
     mc = meth_call(t)
     if mc and mc[1] == "get" and strip_elem(mc[0]) is ddict and mc[2]:
         return unsnap(mc[2][0])
@@ -1080,10 +1086,25 @@ def slot_source_rules(m: Bf3Model, chk, pid):
     exg = Exec(m.prog, policy=lambda e, f, d: False)
     res = exg.run(fi)
     rets = [e for e in res.events if e.kind == "return" and e.stack == (fi.qualname,)]
-    plain = [r for r in rets if any(f[0] == "if" and _flag_frame(f) is False for f in r.ctx)]
+    plain = [r for r in rets if _flag_known(r) is False]
     okp = len(plain) >= 1 and all(_self_attr(r.d["value"], "blob") for r in plain)
     chk.require(okp, P("plain-payload-is-blob"), fi.qualname, "not encrypt_by_session_key -> return self.blob", "%s:%d" % (fi.file, fi.lineno),
                 "for components not marked for encryption the stored bytes are the blob itself", "plain arm does not return self.blob unchanged")
+
+
+def _flag_known(ev):
+    """what is known about 'encrypt_by_session_key is truthy' where event `ev` happens: True / False / None -- from the enclosing if-frames and
+    from the path facts (code after `if flag: return ...` runs under `not flag` without being inside an if)"""
+    for f in ev.ctx:
+        if f[0] == "if":
+            v = _flag_frame(f)
+            if v is not None:
+                return v
+    for c, pol in (getattr(ev, "facts", ()) or ()):
+        v = _flag_frame(("if", c, pol))
+        if v is not None:
+            return v
+    return None
 
 
 def _flag_frame(f):
